@@ -26,7 +26,63 @@ def _job(args):
     return qual, desc, "different", r.restructured.get(qual, "")
 
 
+def _job_benign(args):
+    repo_root, ov, victims, qual, desc = args
+    from ..model import Repo
+    try:
+        r = Repo(repo_root, overrides=ov)
+    except Exception as e:      # noqa: BLE001
+        return qual, desc, "error", str(e)[:100]
+    hit = [q for q in victims if q in r.substituted]
+    if hit:
+        return qual, desc, "equivalent", f"{hit[0]}: {r.substituted[hit[0]]}"
+    return qual, desc, "different", ""
+
+
+def benign(ids):
+    """The same test on the refactored forms of the benign corpus: every function that is proven equivalent in a refactored
+    tree is mutated there (and so is every new helper that was inlined into it); no mutant may still be proven equivalent.
+    This exercises the normal forms that only refactored code reaches."""
+    from ..model import Repo
+    from . import automut
+    from .patchapply import apply_patch
+    repo_root = os.environ.get("VERIF_REPO", "/repo")
+    root = os.path.dirname(os.path.dirname(os.path.dirname(os.path.abspath(__file__))))
+    bdir = os.path.join(root, "benign")
+    ids = ids or sorted(os.listdir(bdir))
+    tasks = []
+    for i in ids:
+        pf = os.path.join(bdir, i, "patch.diff")
+        if not os.path.isfile(pf):
+            continue
+        ov = apply_patch(repo_root, open(pf).read())
+        base = Repo(repo_root, overrides=ov)
+        if not base.substituted:
+            continue
+        helpers = {h for c_, h in base.inlined if c_ in base.substituted}
+        for q, d, rel, new in automut.generate(repo_root, sorted(base.substituted), repo=base):
+            tasks.append((repo_root, dict(ov, **{rel: new}), [q], f"{i}:{q}", d))
+        for q, d, rel, new in automut.generate(repo_root, sorted(helpers), repo=base):
+            victims = [c_ for c_, h in base.inlined if h == q and c_ in base.substituted]
+            tasks.append((repo_root, dict(ov, **{rel: new}), victims, f"{i}:{q}", d))
+    with ProcessPoolExecutor(max_workers=min(16, os.cpu_count() or 4)) as ex:
+        res = list(ex.map(_job_benign, tasks, chunksize=4))
+    bad = 0
+    for q, d, v, det in res:
+        if v == "equivalent":
+            why = next((w for fre, dre, w in EQUIVALENT_EDITS if re.search(fre, q) and re.search(dre, d)), None)
+            print(f"{'listed   ' if why else 'UNSOUND? '} {q} {d} -> {det[:120]}" + (f" [{why}]" if why else ""))
+            bad += 0 if why else 1
+    n_err = sum(1 for r in res if r[2] == "error")
+    print(f"{len(res)} single-edit mutants of refactored functions ({len(ids)} refactorings): "
+          f"{sum(1 for r in res if r[2] == 'equivalent')} judged equivalent ({bad} not listed as behaviour-preserving), "
+          f"{n_err} could not be loaded")
+    return 1 if bad else 0
+
+
 def main(argv):
+    if argv and argv[0] == "--benign":
+        return benign(argv[1:])
     from ..model import Repo
     from . import automut
     repo_root = os.environ.get("VERIF_REPO", "/repo")
